@@ -10,7 +10,8 @@ import SqlProofs.GroupLeavesStrict
 * `group_assignment`: on trees without a `:=` token it does nothing.
 * `group_functions`: its `CREATE TABLE … AS` test reads the *text* of every child, whitespace included
   (`functionsSkip`); the two runs agree when the test has the same outcome at every level (`fnOK`).
-* `group_where`: `_groupable_tokens[-1]` takes the last child of a parenthesis without looking at it (`whOK`).
+* `group_where`: `_groupable_tokens[-1]` takes the last child of a parenthesis without looking at it; it commutes on
+  trees satisfying `whOKL`, which `Ends.lean` proves for the tree `group_where` receives.
 -/
 namespace Sql
 
